@@ -408,7 +408,7 @@ func judgeC08(w *World, sub *subscriber, src *Peer, p *core.Plan, res *core.Resu
 			}
 		}
 	}
-	received := map[int]int{}  // tag -> times received by the subscriber (any connection)
+	received := map[int]int{}   // tag -> times received by the subscriber (any connection)
 	completed := map[int]bool{} // tag -> handshake completed
 	nonDup := map[int]int{}
 	resends, resumes := 0, 0
